@@ -29,6 +29,7 @@ var (
 	fPlan  = flag.String("sim.plan", "", "execute this plan file instead of generating")
 	fPlans = flag.Int("sim.keepplans", 0, "include the plan in the first N records")
 	fWork  = flag.String("sim.work", "", "scratch root")
+	fKnown = flag.String("sim.known", "", "KNOWN_FINDINGS.json")
 	fRace  = flag.Bool("sim.race", false, "free-running race mode (no scheduler)")
 )
 
@@ -39,6 +40,9 @@ func RaceMode() bool { return *fRace }
 func WorkerMain(t *testing.T) {
 	if *fProp == "" && *fPlan == "" {
 		t.Skip("simulation worker: no -sim.prop / -sim.plan given")
+	}
+	if *fKnown != "" {
+		LoadKnown(*fKnown)
 	}
 	if os.Getenv("VERIF_LOG") == "" {
 		log.SetOutput(io.Discard)
